@@ -165,7 +165,36 @@ func (e *fnEnc) calleeKey(c *ssa.CallCommon) string {
 	if f := e.staticCallee(c); f != nil {
 		return funcKey(f)
 	}
+	if k := fieldCallKey(c.Value); k != "" {
+		return k
+	}
 	return "dynamic:" + c.Value.Type().String()
+}
+
+// fieldCallKey: a call through a function-typed struct field loaded right before the
+// call, `x.f(args)`: "field:<pkg>.<Struct>.<f>".
+func fieldCallKey(v ssa.Value) string {
+	ld, ok := v.(*ssa.UnOp)
+	if !ok || ld.Op != token.MUL {
+		return ""
+	}
+	fa, ok := ld.X.(*ssa.FieldAddr)
+	if !ok {
+		return ""
+	}
+	pt, ok := fa.X.Type().Underlying().(*types.Pointer)
+	if !ok {
+		return ""
+	}
+	named, ok := pt.Elem().(*types.Named)
+	if !ok || named.Obj().Pkg() == nil {
+		return ""
+	}
+	st, ok := named.Underlying().(*types.Struct)
+	if !ok {
+		return ""
+	}
+	return "field:" + named.Obj().Pkg().Path() + "." + named.Obj().Name() + "." + st.Field(fa.Field).Name()
 }
 
 func ifaceKey(recv types.Type, method string) string {
@@ -180,6 +209,9 @@ func (e *fnEnc) contractFor(c *ssa.CallCommon) *FuncContract {
 	}
 	f := e.staticCallee(c)
 	if f == nil {
+		if k := fieldCallKey(c.Value); k != "" {
+			return e.V.C.Funcs[k]
+		}
 		return nil
 	}
 	if fc := e.V.C.Funcs[funcKey(f)]; fc != nil {
@@ -270,6 +302,15 @@ func (e *fnEnc) call(st *state, at ssa.Value, c *ssa.CallCommon, instr ssa.Instr
 			results = append(results, tval{term: n, typ: t})
 		}
 	}
+	if fc == nil && callee != nil && (e.V.SweepSet[funcKey(callee)] || e.V.Sweep) && len(callee.Params) == len(args) {
+		// swept callee: its default precondition (non-nil pointer/map parameters) is an
+		// obligation here
+		for i, p := range callee.Params {
+			if defaultNonNil(p.Type()) {
+				e.oblige(st, "call-pre", fmt.Sprintf("%s[non-nil:%s]", shortCallee(key), p.Name()), c.Pos(), not(eq(args[i].term, "null")))
+			}
+		}
+	}
 	if fc == nil {
 		if !e.V.isKnownPure(key) {
 			e.V.Assumed[key] = true
@@ -301,6 +342,12 @@ func (e *fnEnc) call(st *state, at ssa.Value, c *ssa.CallCommon, instr ssa.Instr
 	// callbacks: the closure passed for a function-typed parameter must accept whatever the
 	// host guarantees; its effect is applied an unknown number of times
 	cbHavoc := false
+	cbPrecise := true // every callback literal has a contract with an explicit frame
+	type cbEff struct {
+		fc  *FuncContract
+		env *env
+	}
+	var cbEffects []cbEff
 	if len(fc.Callbacks) > 0 && callee != nil {
 		for pi, prm := range callee.Params {
 			gs := fc.Callbacks[prm.Name()]
@@ -315,6 +362,7 @@ func (e *fnEnc) call(st *state, at ssa.Value, c *ssa.CallCommon, instr ssa.Instr
 			mc := asClosure(c.Args[ai])
 			if mc == nil {
 				e.structureError(fmt.Sprintf("call of %s: the callback argument is not a function literal", shortCallee(key)))
+				cbPrecise = false
 				continue
 			}
 			cfn := mc.Fn.(*ssa.Function)
@@ -323,7 +371,11 @@ func (e *fnEnc) call(st *state, at ssa.Value, c *ssa.CallCommon, instr ssa.Instr
 				if !e.V.SweepSet[funcKey(cfn)] && !e.V.Sweep {
 					e.V.Assumed["callback literal without contract: "+funcKey(cfn)] = true
 				}
+				cbPrecise = false
 				continue
+			}
+			if !cfc.ModSet || cfc.ModAll {
+				cbPrecise = false
 			}
 			cfc.Used = true
 			// fresh callback arguments constrained by the host's guarantee
@@ -344,10 +396,25 @@ func (e *fnEnc) call(st *state, at ssa.Value, c *ssa.CallCommon, instr ssa.Instr
 				o := e.oblige(st, "callback-pre", fmt.Sprintf("%s[%s]", shortCallee(funcKey(cfn)), labelOr(r.Label, i)), c.Pos(), implies(and(gts...), t))
 				o.Src = r.Src
 			}
+			cbEffects = append(cbEffects, cbEff{cfc, renv})
 		}
 	}
 	// frame
 	switch {
+	case cbHavoc && cbPrecise && fc.ModSet && !fc.ModAll:
+		// the host's own frame plus the frame of every callback literal, applied to the
+		// state before the call (an unknown number of invocations writes at most that)
+		if !fc.ModNone {
+			e.checkFrameCallMods(st, c, fc, cenv)
+			e.havocMods(st, fc, cenv)
+		}
+		for _, ce := range cbEffects {
+			if !ce.fc.ModNone {
+				e.checkFrameCallMods(st, c, ce.fc, ce.env)
+				e.havocMods(st, ce.fc, ce.env)
+			}
+		}
+		e.bumpNext(st)
 	case cbHavoc:
 		e.checkFrameCall(st, c, key)
 		e.havocAll(st)
@@ -947,7 +1014,7 @@ func asClosure(v ssa.Value) *ssa.MakeClosure {
 // passed: parameters are the given argument terms, captured variables are the bindings.
 func (e *fnEnc) closureEnv(st, old *state, mc *ssa.MakeClosure, args []tval) *env {
 	cfn := mc.Fn.(*ssa.Function)
-	en := &env{e: e, st: st, old: old, names: map[string]tval{}, fvAddrs: map[string]tval{}, fn: cfn}
+	en := &env{e: e, st: st, old: old, names: map[string]tval{}, fvAddrs: map[string]tval{}, fvSrc: map[string]ssa.Value{}, fn: cfn}
 	if cfn.Pkg != nil {
 		en.pkg = cfn.Pkg.Pkg
 	} else if cfn.Parent() != nil && cfn.Parent().Pkg != nil {
@@ -961,6 +1028,7 @@ func (e *fnEnc) closureEnv(st, old *state, mc *ssa.MakeClosure, args []tval) *en
 	for i, fv := range cfn.FreeVars {
 		if i < len(mc.Bindings) {
 			en.fvAddrs[fv.Name()] = tval{term: e.val(mc.Bindings[i]), typ: fv.Type()}
+			en.fvSrc[fv.Name()] = mc.Bindings[i]
 		}
 	}
 	return en
